@@ -136,6 +136,7 @@ type Sim struct {
 	harnessErr           string
 	spinning             int
 	stuckProbed, probing bool
+	abandoned            string
 	idleAdvance          int // escalating clock advances tried in the current stall
 	startTime            time.Time
 	simTime              time.Duration
@@ -149,6 +150,7 @@ type Result struct {
 	Preempts   int
 	Counters   map[string]int
 	HarnessErr string
+	Abandoned  string // the run says nothing (see Sim.stuck)
 	SimTime    time.Duration
 	Decisions  []int // every scheduling decision as an explicit choice code (for the shrinker)
 	Ops        []*OpRecord
@@ -325,6 +327,7 @@ func Run(t *testing.T, in *Input, target string, keepLog bool) (res *Result) {
 		Preempts:   s.sched.preempts,
 		Counters:   s.counter,
 		HarnessErr: s.harnessErr,
+		Abandoned:  s.abandoned,
 		SimTime:    s.simTime,
 		Decisions:  append([]int(nil), s.sched.made...),
 		Ops:        s.ops,
@@ -591,6 +594,15 @@ func (s *Sim) stuck() {
 			g.clients = append(g.clients, ct)
 		}
 		s.probing = true
+		return
+	}
+	if s.cur != nil && s.cur.Idx > 0 {
+		// After a simulated restart a stall may be an artefact of the simulation: package-level
+		// state of the code under test (a table of requests in flight, say) survives a simulated
+		// process death, which no real process death lets it do. The run is given up and counted;
+		// a check that found nothing but such runs ends in harness trouble.
+		s.abandoned = "stall after a simulated restart: " + strings.Join(blocked, " ")
+		s.stop = true
 		return
 	}
 	s.harnessErr = "stuck outside the locker: " + strings.Join(blocked, " ")
